@@ -82,28 +82,34 @@ impl MuxStream {
     #[tracing::instrument(skip_all, level = "trace", fields(flow_id = %format_args!("{:08x}", self.flow_id)))]
     #[inline]
     pub fn poll_for_push(&mut self, cx: &mut Context<'_>) -> Poll<usize> {
-        let Some(next) = ready!(self.rx_frame_rx.poll_recv(cx)) else {
-            trace!("stream has been closed");
-            // See `tokio::sync::mpsc`#clean-shutdown
-            self.rx_frame_rx.close();
-            // There should be no code path sending more frames after an EOF
-            // If this assertion fails, some code path is sending frames after EOF
-            // and thus causing loss of data.
-            // However, this is not an inconsistent state so we should not
-            // panic a production setup.
-            debug_assert!(self.rx_frame_rx.try_recv().is_err());
-            return Poll::Ready(0);
-        };
-        // Putting no data into the buffer is EOF, and other code should
-        // already ensure that such frames are filtered out.
-        debug_assert!(!next.is_empty());
-        assert!(
-            self.buf.is_empty(),
-            "`poll_fill_buf_inner` should not be called unless the buffer is empty"
-        );
-        self.buf = next;
-        self.increment_psh_recvd_since();
-        Poll::Ready(self.buf.len())
+        loop {
+            let Some(next) = ready!(self.rx_frame_rx.poll_recv(cx)) else {
+                trace!("stream has been closed");
+                // See `tokio::sync::mpsc`#clean-shutdown
+                self.rx_frame_rx.close();
+                // There should be no code path sending more frames after an EOF
+                // If this assertion fails, some code path is sending frames after EOF
+                // and thus causing loss of data.
+                // However, this is not an inconsistent state so we should not
+                // panic a production setup.
+                debug_assert!(self.rx_frame_rx.try_recv().is_err());
+                return Poll::Ready(0);
+            };
+            assert!(
+                self.buf.is_empty(),
+                "`poll_fill_buf_inner` should not be called unless the buffer is empty"
+            );
+            if next.is_empty() {
+                // Putting no data into the buffer would read as EOF. An empty `Push` carries
+                // no data, but it did use up a unit of the peer's credit, so count it and
+                // keep waiting for real data.
+                self.increment_psh_recvd_since();
+                continue;
+            }
+            self.buf = next;
+            self.increment_psh_recvd_since();
+            return Poll::Ready(self.buf.len());
+        }
     }
 
     /// Get a reference to the internal buffer.
@@ -116,6 +122,11 @@ impl MuxStream {
     #[tracing::instrument(skip_all, level = "trace", fields(flow_id = %format_args!("{:08x}", self.flow_id)))]
     #[inline]
     pub fn poll_write_push(&self, cx: &Context<'_>, buf: &[u8]) -> Poll<Option<()>> {
+        if buf.is_empty() {
+            // Nothing to transmit: an empty `Push` would only cost credit and, at an older
+            // peer, read as end-of-stream.
+            return Poll::Ready(Some(()));
+        }
         let Some(()) = ready!(self.poll_obtain_write_permission(cx)) else {
             return Poll::Ready(None);
         };
@@ -307,6 +318,10 @@ mod tokio_io_impls {
             for buf in bufs {
                 total_len += buf.len();
                 slices.push(CowBytes::Temporary(buf));
+            }
+            if total_len == 0 {
+                // See `poll_write_push`: never transmit an empty `Push`
+                return Poll::Ready(Ok(0));
             }
             let Some(()) = ready!(self.poll_obtain_write_permission(cx)) else {
                 return Poll::Ready(Err(io::ErrorKind::BrokenPipe.into()));
